@@ -83,7 +83,7 @@ def anc(pix, depth, D):
 
 
 OPS = ['add_pixels', 'add_circle', 'union_same', 'union_coarser', 'union_finer', 'without', 'intersect', 'symdiff',
-       'q_demoted', 'q_within', 'q_area', 'pickle', 'q_uniq']
+       'q_demoted', 'q_within', 'q_area', 'pickle', 'q_uniq', 'swap_same_count', 'fill_base', 'q_within']
 
 
 def run_history(hist, D, seed):
@@ -149,6 +149,29 @@ def run_history(hist, D, seed):
                     for d2 in o.pixeldict:
                         if r.pixeldict[d] is o.pixeldict[d2]:
                             return (step, op, "a pixel set object is shared between the two regions")
+            elif op == 'swap_same_count':
+                # remove k covered pixels and add k uncovered ones: the number of deepest-level pixels does not change
+                inside = sorted(ref)
+                k = min(len(inside), rnd.randint(1, 3))
+                outside = [q for q in rnd.sample(range(12 * 4 ** D), min(12 * 4 ** D, 40)) if q not in ref][:k]
+                if k and len(outside) == k:
+                    o1, o2 = Region(maxdepth=D), Region(maxdepth=D)
+                    take = rnd.sample(inside, k)
+                    o1.add_pixels(np.array(sorted(take)), D)
+                    o2.add_pixels(np.array(sorted(outside)), D)
+                    r.without(o1)
+                    r.union(o2)
+                    ref -= set(take)
+                    ref |= set(outside)
+                    normalised = True
+            elif op == 'fill_base':
+                # a whole HEALPix base pixel (all four depth-1 children), through a normalising operation
+                b = rnd.randrange(12)
+                o = Region(maxdepth=D)
+                o.add_pixels(np.array([4 * b, 4 * b + 1, 4 * b + 2, 4 * b + 3]), 1)
+                r.union(o)
+                ref |= desc({4 * b, 4 * b + 1, 4 * b + 2, 4 * b + 3}, 1, D)
+                normalised = True
             elif op == 'q_demoted':
                 got = set(int(p) for p in r.get_demoted())
                 if got != ref:
@@ -163,7 +186,7 @@ def run_history(hist, D, seed):
             elif op == 'q_area':
                 a = r.get_area()
                 if all(k in ('add_circle', 'union_same', 'union_coarser', 'union_finer', 'without', 'intersect', 'symdiff',
-                             'q_demoted', 'q_within', 'q_area', 'pickle', 'q_uniq') for k in hist[:step]) and \
+                             'q_demoted', 'q_within', 'q_area', 'pickle', 'q_uniq', 'swap_same_count', 'fill_base') for k in hist[:step]) and \
                         any(k not in ('q_demoted', 'q_within', 'q_area', 'pickle', 'q_uniq') for k in hist[:step]):
                     # only meaningful when the state is normalised (no bare add_pixels before)
                     last_mut = [k for k in hist[:step] if k not in ('q_demoted', 'q_within', 'q_area', 'pickle', 'q_uniq')]
@@ -225,6 +248,12 @@ def crosscheck(p):
     for L in (1, 2, 3):
         for h in itertools.product(small, repeat=L):
             hists.append((list(h), 2 if L > 1 else 1))
+    # directed: a cached query followed by a change that keeps the pixel count; whole base pixels
+    for D_ in (1, 2, 3):
+        hists.append((['add_pixels', 'q_within', 'swap_same_count', 'q_within', 'q_demoted'], D_))
+        hists.append((['add_circle', 'q_within', 'swap_same_count', 'q_within', 'swap_same_count', 'q_within'], D_))
+        hists.append((['fill_base', 'q_demoted', 'q_area', 'q_within', 'fill_base', 'q_demoted', 'q_uniq'], D_))
+        hists.append((['add_pixels', 'fill_base', 'without', 'fill_base', 'q_demoted', 'q_within'], D_))
     for _ in range(150 if not thorough else 3000):
         L = rnd.randint(3, 12)
         hists.append(([rnd.choice(OPS) for _ in range(L)], rnd.randint(1, 5)))
